@@ -43,6 +43,11 @@ def op_templates():
             sb = (2, 3) if tb else (3, 2)
             reg("gemm_%d%d" % (ta, tb), [sa, sb], lambda g, x, st, ta=ta, tb=tb: g.gemm(x[0], x[1], ta, tb))
     reg("gemm_batch1", [(1, 2, 3), (2, 2, 3)], lambda g, x, st: g.gemm(x[0], x[1], False, True))
+    reg("slice_two_singles_neg", [(2, 5)], lambda g, x, st: g.get_slice(x[0], [1, -4]))
+    reg("slice_two_singles_neg2", [(2, 3)], lambda g, x, st: g.get_slice(x[0], [0, -2]))
+    reg("slice_three_mixed", [(2, 3, 4)], lambda g, x, st: g.get_slice(x[0], [-1, (None, None, 2), -3]))
+    reg("stack_scalar_first", [(), (2,)], lambda g, x, st: g.stack([x[0], x[1]], [2]))
+    reg("stack_scalar_first_2d", [(), (2, 2)], lambda g, x, st: g.stack([x[0], x[1], x[0]], [3]))
     reg("stack_scalars", [(), ()], lambda g, x, st: g.stack([x[0], x[1]], [2]))
     reg("stack_scalars_2d", [(), ()], lambda g, x, st: g.stack([x[0], x[1], x[1], x[0]], [2, 2]))
     reg("get_full", [(2, 3)], lambda g, x, st: g.get(x[0], [1, 2]))
